@@ -4,6 +4,7 @@ import (
 	"fmt"
 	"go/token"
 	"go/types"
+	"os"
 	"strings"
 
 	"golang.org/x/tools/go/ssa"
@@ -574,6 +575,9 @@ func (w *World) applyContract(fr *Frame, st *State, ct *Contract, names []string
 		vars["result0"] = res
 	}
 	// frame
+	if os.Getenv("GOAVC_DEBUG") != "" {
+		fmt.Fprintf(os.Stderr, "call %s: contract kind=%s file=%s modAll=%v modStated=%v preserves=%d\n", label, ct.Kind, ct.File, ct.ModAll, ct.ModStated, len(ct.Preserves))
+	}
 	if ct.ModAll || (!ct.ModStated && ct.Kind == "func") {
 		keep := map[string]Term{}
 		for _, pe := range ct.Preserves {
@@ -581,9 +585,9 @@ func (w *World) applyContract(fr *Frame, st *State, ct *Contract, names []string
 				keep[k] = w.hget(st, k)
 			}
 		}
-		if !ct.ModAll && w.topContract != nil && len(w.topContract.UnknownPreserve) > 0 {
-			// the callee's contract says nothing about its frame: it is as
-			// unknown as that of a call without a contract
+		if (!ct.ModAll || len(ct.Preserves) > 0) && w.topContract != nil && len(w.topContract.UnknownPreserve) > 0 {
+			// the callee's contract says nothing about its frame (or only what it preserves at least): beyond
+			// that it is as unknown as that of a call without a contract
 			var tpkg *types.Package
 			if p := w.l.All[w.topContract.Pkg]; p != nil {
 				tpkg = p.Types
